@@ -5,5 +5,7 @@ CONSTANTS
   AcrhOK <- AcrhOKElems
   AcrhEcho <- AcrhEchoElems
   CheckPairs = FALSE
+  DumpSems = FALSE
 INVARIANTS BrowserVerdictIsMeaning HeadersWellFormed DebugOnlyDiagnostics VarySufficient VaryPreserved DispatchRule OnlyDocumentedEdits NoDisclosure
+CONSTRAINT DumpSem
 CHECK_DEADLOCK FALSE
